@@ -653,7 +653,11 @@ func GenC11(r *RNG) *C11Plan {
 	nc := 1 + r.Intn(3)
 	for k := 0; k < nc; k++ {
 		s := C11ConnScript{MaxStreams: Pick(r, int64(-1), 100, 2), Partial: r.Intn(2) == 0}
-		switch r.Intn(6) {
+		switch r.Intn(8) {
+		case 6, 7:
+			// GOAWAY, and the connection is lost at some point after it: what the GOAWAY left standing is cut short
+			s.KillAfter = 1 + r.Intn(n)
+			fallthrough
 		case 0, 1, 2:
 			s.GoAwayAfter = 1 + r.Intn(n)
 			s.GoAwayLast = Pick(r, -1, 0, 1, 2, 3)
